@@ -553,7 +553,7 @@ def length(seq, nz):
             import re
             n = 0
             fmt = it[1]
-            for m in re.finditer(r'%0(\d+)x|%%|.', fmt):
+            for m in re.finditer(r'%0(\d+)[xXd]|%%|.', fmt):
                 n += int(m.group(1)) if m.group(1) else 1
             total = total + Poly.const(n)
         else:
